@@ -356,7 +356,7 @@ class GlyphSet(_UFOBaseIO):
                 infoData = validateLayerInfoVersion3Data(infoData)
             # write file
             self._writePlist(LAYERINFO_FILENAME, infoData)
-        elif self._havePreviousFile and self.fs.exists(LAYERINFO_FILENAME):
+        elif self.fs.exists(LAYERINFO_FILENAME):
             # data empty, remove existing file
             self.fs.remove(LAYERINFO_FILENAME)
 
@@ -828,7 +828,12 @@ def _writeGlyphToBytes(
     # outline
     if drawPointsFunc is not None:
         outline = etree.SubElement(root, "outline")
-        pen = GLIFPointPen(outline, identifiers=identifiers, validate=validate)
+        pen = GLIFPointPen(
+            outline,
+            formatVersion=formatVersion,
+            identifiers=identifiers,
+            validate=validate,
+        )
         drawPointsFunc(pen)
         if formatVersion.major == 1 and anchors:
             _writeAnchorsFormat1(pen, anchors, validate)
